@@ -66,8 +66,8 @@ Lemma write_feat_gen ft g l0 rest :
 Proof.
   intros Eg Mg Hl Nm Ht. unfold write_feat. rewrite Eg, Hl.
   assert (loc_meta g l0 = g) as E0 by (unfold loc_meta; rewrite Nm; reflexivity).
-  rewrite E0. destruct (m_seqid _ Mg) as [E1 _]. destruct (m_source _ Mg) as [E2 _]. destruct (m_type _ Mg) as [E3 C3].
-  rewrite (qcol_ok _ _ E1), (qcol_ok _ _ E2), E3.
+  rewrite E0. destruct (m_seqid _ Mg) as [E1 _]. destruct (m_type _ Mg) as [E3 C3].
+  rewrite (qcol_ok _ _ E1), E3.
   destruct (ocol k_type g) as [t|] eqn:Ot; cbn [option_map].
   - destruct C3 as [_ [Nt _]]. assert (truthy (AS t) = true) as Tt by (destruct t; [congruence|reflexivity]).
     rewrite Tt. unfold line_opts, idv_of, dline_i, differs. rewrite Ot. cbn [py_str sid_back]. reflexivity.
@@ -120,7 +120,8 @@ Proof.
   rewrite (write_feat_gen (Nf ft) (g1_of g) l01 rest1 Em (g1_ok g Mg) Fl eq_refl).
   2:{ intros H. rewrite Fm, CF2. rewrite (aget_g1 g k_type U) in H. exact H. }
   f_equal. unfold line_opts. rewrite !(ocol_g1 g _ U), (idv_g1 g U), (pop5_g1 g U). f_equal.
-  - apply write_line_ext; try reflexivity; rewrite !aget_pop3 by reflexivity; apply (aget_g1 g _ U).
+  - unfold write_line_s. rewrite (qcol_ext k_source _ _ (aget_g1 g k_source U)). destruct (qcol k_source g); [|reflexivity].
+    apply write_line_ext; try reflexivity; rewrite !aget_pop3 by reflexivity; apply (aget_g1 g _ U).
   - unfold rest1. rewrite map_map. apply map_ext_in. intros l Hin.
     assert (rest <> []) as NE by (intros E; subst rest; contradiction).
     rewrite forallb_forall in Hrest, Hprest.
